@@ -17,7 +17,7 @@ MON_DATA = {
     "nozzle": ["density", "pressure", "mach", "velocity", "massflow"],
 }
 PLACEMENT_KINDS = ["start", "start_minus", "inside", "twice", "burst", "boundary",
-                   "sumboundary", "stop", "beyond", "lin"]
+                   "sumboundary", "stop", "beyond", "lin", "int"]
 FAULT_WHERE = ["first_step", "side", "after_side", "last_step", "jac", "monitor", "tick",
                "linsolve", "stepend", "flush", "any_rhs", "step", "alloc"]
 
@@ -230,6 +230,8 @@ def gen_tsave(rng, n, mask, has_tottime, must_nonempty):
             places.append({"k": "stop"})
         elif k == "beyond":
             places.append({"k": "beyond", "th": fhex(rng.choice([0.5, 3.0, 1e-9, 10.0]))})
+        elif k == "int":
+            places.append({"k": "int", "v": rng.choice([1, 1, 2, 3])})
         elif k == "lin":
             m = rng.choice([2, 3, 4, 5, 10])
             for j in range(m + 1):
@@ -429,7 +431,7 @@ def generate(seed, prop, run):
     # swarm mask
     mask = set()
     for k in PLACEMENT_KINDS:
-        if rng.random() < 0.55:
+        if rng.random() < (0.55 if k != "int" else 0.2):
             mask.add(k)
     if not mask & set(PLACEMENT_KINDS):
         mask.add("inside")
